@@ -1467,6 +1467,25 @@ func genRound3(g *core.Gen, r *core.Rand) {
 			g.Case("vwc-witness-position-sweep", true, "C13 vwcb "+txsTok(txs))
 		}
 	}
+	// every value of each of the three template bytes of P2SH; every single bit of a sequence number
+	redeem := pushOf([]byte{0x52, 0xae, 0xac}, false)
+	for _, pos := range []int{0, 1, 22} {
+		for v := 0; v < 256; v++ {
+			pk := p2shScript(r)
+			pk[pos] = byte(v)
+			g.Case("p2sh-template-byte-sweep", true, fmt.Sprintf("C13 p2sh %s %s", hx(redeem), hx(pk)))
+			if v%4 == 0 {
+				g.Case("p2sh-template-byte-sweep", true, "C13 script "+hx(pk))
+				g.Case("p2sh-template-byte-sweep", true, fmt.Sprintf("C13 wsig %s %s 00.51ae", hx(pushOf(append([]byte{0x00, 0x20}, r.Bytes(32)...), false)), hx(pk)))
+			}
+		}
+	}
+	for bit := 0; bit < 32; bit++ {
+		v := uint32(1) << bit
+		g.Case("sequence-bit-sweep", true, fmt.Sprintf("C13 seqlock 1 2 0 1500000000,1500000900,1500000500 %d:1,%d:2", v, v|3))
+		g.Case("sequence-bit-sweep", true, fmt.Sprintf("C13 seqlock 1 2 0 1500000000,1500000900,1500000500 %d:2,7:m", v|1<<22|2))
+		g.Case("sequence-bit-sweep", true, fmt.Sprintf("C13 final 500000100 10 500000050 %d,4294967295", 0xffffffff^v))
+	}
 	// lesson 8: empty-but-non-nil and degenerate shapes reached directly
 	empties := []*wire.MsgTx{
 		{Version: 1, TxIn: []*wire.TxIn{}, TxOut: []*wire.TxOut{}},
